@@ -32,7 +32,7 @@ META = {
 
 CLAIMS_DEC = "<cwt::ClaimsSet as common::AsCborValue>::from_cbor_value"
 CENSUS = {
-    ("pre", "type-error:slot?"),
+    ("pre", "not-a-map"),
     ("all", "propagate:<common::RegisteredLabelWithPrivate<T> as common::AsCborValue>::from_cbor_value"),
     ("all", "err:DuplicateMapKey"),
     ("1", "propagate:" + codec.TRY_STRING), ("2", "propagate:" + codec.TRY_STRING), ("3", "propagate:" + codec.TRY_STRING),
@@ -150,9 +150,8 @@ def timestamp_encode(ctx, rule):
     oks = [o for o in outcomes(e, pe) if o["kind"] == "ok"]
     enc = {}
     n_arms = 0
-    if len(oks) == 1:
-        st = e.blocks[oks[0]["bb"]]["stmts"][oks[0]["idx"]]
-        for term, dbb in codec.arms(pe, st["rv"]["ops"][0], oks[0]["bb"], oks[0]["idx"]):
+    if oks:
+        for term, dbb in codec.ok_payload_arms(e, pe):
             sv = path_variants(prog, pe, conditions(e, pe, dbb)).get(("param", 0))
             n_arms += 1
             if sv and len(sv) == 1:
